@@ -91,7 +91,7 @@ func runC01(c *Ctx) {
 		r.Check(d == "", "R2", "avp-header:writer=reader", c.fpos(aw), "identical offset→field maps: "+wl.String(), "the AVP header encoder and decoder disagree (written vs read): "+d)
 		wv := ""
 		if ft, ok := wfacts[8]; ok {
-			wv = vbitEdge(ft.At)
+			wv = c.vbitEdge(ft.At)
 		}
 		r.Check(wv == rcond["VendorID"] && wv == "V", "R2", "avp-header:same-V-predicate", c.fpos(aw), "vendor id written and read under the same Flags&Vbit predicate", fmt.Sprintf("the vendor id is written on edge %q but read on edge %q", wv, rcond["VendorID"]))
 		// R3: the written length
